@@ -481,6 +481,7 @@ def run(rec, shard, nshards, t):
                     rec.count('terminal_migrations_declined' if declined else 'terminal_migrations_confirmed')
                     # (a declined `tally up` still writes its report: output/ is not part of the comparison there)
                     now2 = {r: v for r, v in contents(root2).items() if not (cmd in FULL_TTY and (r.startswith('output' + os.sep) or (os.sep + 'output' + os.sep) in r))}
+                    before2 = {r: v for r, v in before2.items() if not (cmd in FULL_TTY and (r.startswith('output' + os.sep) or (os.sep + 'output' + os.sep) in r))}
                     if declined and now2 != before2:
                         rec.violation('declined-migration-changes-the-budget:' + cmd, f'{shape}: the user answered {TTY_ANSWERS[cmd]!r} at the prompt; the tree changed: '
                                       f'{sorted(k for k in set(now2) | set(before2) if now2.get(k) != before2.get(k))}', {'kind': 'point', 'shape': shape, 'cmd': cmd, 'k': 0, 'mode': 'record'})
